@@ -387,24 +387,44 @@ struct Recorder {
     next_add: Arc<StdMutex<Option<common_msgs::AddAppointmentResponse>>>,
     next_get: Arc<StdMutex<Option<common_msgs::GetAppointmentResponse>>>,
     next_info: Arc<StdMutex<Option<common_msgs::GetSubscriptionInfoResponse>>>,
+    /// when set, every call is refused with this status (the error replies of the tower)
+    next_error: Arc<StdMutex<Option<(tonic::Code, String)>>>,
+}
+
+impl Recorder {
+    fn refusal(&self) -> Option<tonic::Status> {
+        self.next_error.lock().unwrap().clone().map(|(c, m)| tonic::Status::new(c, m))
+    }
 }
 
 #[tonic::async_trait]
 impl teos::protos::public_tower_services_server::PublicTowerServices for Recorder {
     async fn register(&self, request: tonic::Request<common_msgs::RegisterRequest>) -> Result<tonic::Response<common_msgs::RegisterResponse>, tonic::Status> {
         self.seen.lock().unwrap().register.push(request.into_inner());
+        if let Some(s) = self.refusal() {
+            return Err(s);
+        }
         self.next_register.lock().unwrap().clone().map(tonic::Response::new).ok_or_else(|| tonic::Status::not_found("no reply scripted"))
     }
     async fn add_appointment(&self, request: tonic::Request<common_msgs::AddAppointmentRequest>) -> Result<tonic::Response<common_msgs::AddAppointmentResponse>, tonic::Status> {
         self.seen.lock().unwrap().add.push(request.into_inner());
+        if let Some(s) = self.refusal() {
+            return Err(s);
+        }
         self.next_add.lock().unwrap().clone().map(tonic::Response::new).ok_or_else(|| tonic::Status::not_found("no reply scripted"))
     }
     async fn get_appointment(&self, request: tonic::Request<common_msgs::GetAppointmentRequest>) -> Result<tonic::Response<common_msgs::GetAppointmentResponse>, tonic::Status> {
         self.seen.lock().unwrap().get.push(request.into_inner());
+        if let Some(s) = self.refusal() {
+            return Err(s);
+        }
         self.next_get.lock().unwrap().clone().map(tonic::Response::new).ok_or_else(|| tonic::Status::not_found("no reply scripted"))
     }
     async fn get_subscription_info(&self, request: tonic::Request<common_msgs::GetSubscriptionInfoRequest>) -> Result<tonic::Response<common_msgs::GetSubscriptionInfoResponse>, tonic::Status> {
         self.seen.lock().unwrap().info.push(request.into_inner());
+        if let Some(s) = self.refusal() {
+            return Err(s);
+        }
         self.next_info.lock().unwrap().clone().map(tonic::Response::new).ok_or_else(|| tonic::Status::not_found("no reply scripted"))
     }
 }
@@ -420,6 +440,7 @@ pub fn c16(tier: Tier) -> i32 {
         next_add: Arc::new(StdMutex::new(None)),
         next_get: Arc::new(StdMutex::new(None)),
         next_info: Arc::new(StdMutex::new(None)),
+        next_error: Arc::new(StdMutex::new(None)),
     };
     let front = Front::start(rec.clone());
     let addr = NetAddr::new(format!("http://{}", front.http));
@@ -593,6 +614,63 @@ pub fn c16(tier: Tier) -> i32 {
                 }
             }
         }
+        // ---- the tower's error replies: every status the internal API answers with, through the router's mapping to an
+        // HTTP status and an error object, back through the client's reply handling: the client must end up with the
+        // message and the error code the tower produced (documented codes: teos_common::errors)
+        use teos_common::errors as codes;
+        let refusals: Vec<(tonic::Code, u8)> = vec![
+            (tonic::Code::InvalidArgument, codes::WRONG_FIELD_FORMAT),
+            (tonic::Code::NotFound, codes::APPOINTMENT_NOT_FOUND),
+            (tonic::Code::AlreadyExists, codes::APPOINTMENT_ALREADY_TRIGGERED),
+            (tonic::Code::ResourceExhausted, codes::REGISTRATION_RESOURCE_EXHAUSTED),
+            (tonic::Code::Unauthenticated, codes::INVALID_SIGNATURE_OR_SUBSCRIPTION_ERROR),
+            (tonic::Code::Unavailable, codes::SERVICE_UNAVAILABLE),
+            (tonic::Code::Internal, codes::UNEXPECTED_ERROR),
+            (tonic::Code::Unknown, codes::UNEXPECTED_ERROR),
+        ];
+        let messages: Vec<String> = vec!["".into(), "Service currently unavailable".into(), "locator not found \u{00e9} \"quoted\"".into(), "x".repeat(300)];
+        for (code, want_code) in refusals.iter() {
+            for m in messages.iter() {
+                *rec.next_error.lock().unwrap() = Some((*code, m.clone()));
+                let a = Appointment::new(Locator::from_slice(&locs[2]).unwrap(), vec![1, 2, 3], 42);
+                let mut got: Vec<(&str, Result<(String, u8), String>)> = Vec::new();
+                got.push((
+                    "add_appointment",
+                    match client::send_appointment(tower_id, &addr, &None, &a, "sig").await {
+                        Err(client::AddAppointmentError::ApiError(e)) => Ok((e.error, e.error_code)),
+                        other => Err(format!("{other:?}")),
+                    },
+                ));
+                let r: Result<client::ApiResponse<common_msgs::GetAppointmentResponse>, _> =
+                    client::process_post_response(client::post_request(&addr, Endpoint::GetAppointment, &common_msgs::GetAppointmentRequest { locator: locs[2].to_vec(), signature: "sig".into() }, &None).await).await;
+                got.push((
+                    "get_appointment",
+                    match r {
+                        Ok(client::ApiResponse::Error(e)) => Ok((e.error, e.error_code)),
+                        other => Err(format!("{other:?}")),
+                    },
+                ));
+                let r: Result<client::ApiResponse<common_msgs::GetSubscriptionInfoResponse>, _> =
+                    client::process_post_response(client::post_request(&addr, Endpoint::GetSubscriptionInfo, &common_msgs::GetSubscriptionInfoRequest { signature: "s".into() }, &None).await).await;
+                got.push((
+                    "get_subscription_info",
+                    match r {
+                        Ok(client::ApiResponse::Error(e)) => Ok((e.error, e.error_code)),
+                        other => Err(format!("{other:?}")),
+                    },
+                ));
+                for (ep, g) in got {
+                    evals += 1;
+                    distinct.insert(format!("refusal|{ep}|{code:?}|{}", m.len()));
+                    match g {
+                        Ok((text, c)) if text == *m && c == *want_code => {}
+                        Ok((text, c)) => fail(&format!("wire:client-parsed-different-values:error-reply:{ep}"), format!("tower answered {code:?} ({want_code}) {m:?}; the client has ({c}) {text:?}"), &run),
+                        Err(e) => fail(&format!("wire:client-rejects-error-reply:{ep}"), format!("tower answered {code:?} ({want_code}) {m:?}; the client has {e}"), &run),
+                    }
+                }
+            }
+        }
+        *rec.next_error.lock().unwrap() = None;
     });
     // ---- signed byte strings determine their fields (pairwise over the grid)
     let mut signed: Vec<(String, Vec<u8>)> = Vec::new();
